@@ -182,4 +182,55 @@ theorem load_rejects (realspec maxbucket : Int) (toks : List Int) (t : Tree) (h 
         show c0 < (j : Int) ∧ c1 < (j : Int) ∧ (v : Int) < numpoints
         omega
 
+/-! ## nearest neighbour: the search -/
+
+/-- the executable invariant check the driver runs on every dumped tree (built by `Initialize`, or reloaded) implies
+    `TreeInv`, the hypothesis of `search_is_bruteforce` -/
+theorem checkInv_sound (tree : Array Node) (numpoints bucket : Nat) (d : Nat → Nat → Int)
+    (h : checkInv tree numpoints bucket d = true) : TreeInv tree bucket numpoints d :=
+  checkInv_sound' tree numpoints bucket d h
+
+/--
+**`Search` = brute force.**  For any metric space `(α, dist)` (`dist x x = 0`, symmetric, triangle inequality; values in an
+ordered ring — here `ℤ`, the harness instantiates `dist_t = long long`), any points `pt 0 … pt (numpoints−1)`, any stored
+tree satisfying `TreeInv` (the last node is the root of a finite tree of nodes in which every point index occurs exactly
+once and, for an internal node with vantage point `v`, every point `p` below child `l` has
+`lower[l] ≤ dist v p ≤ upper[l]`), any query point `q`, any `k`, `maxdist`, `mindist` (no side condition: for `k ≤ 0`,
+`maxdist ≤ mindist` or an empty set both sides are empty), `exhaustive = true`, `tol = 0`:
+the model of `NearestNeighbor::Search` (the definitions of `Model/VPTree.lean` that the driver runs against the
+implementation) terminates within its fuel (`numpoints` pops of `todo`) and returns, in ascending order, exactly the
+distances of the `k` nearest points a brute-force scan finds in the window `mindist < d ≤ maxdist`.
+Ingredients (in `Proofs/VPTree.lean`): `pushChild_spec` (soundness of the three pruning tests by the triangle inequality —
+false for the seeded change that tests `lower` instead of `upper`), `visit_spec` (best-`k` heap invariant, `tau`),
+`loop_spec` (invariant of the main loop and fuel adequacy).
+-/
+theorem search_is_bruteforce {α : Type} (dist : α → α → Int) (pt : Nat → α) (q : α)
+    (h0 : ∀ x, dist x x = 0) (hsymm : ∀ x y, dist x y = dist y x) (htri : ∀ x y z, dist x z ≤ dist x y + dist y z)
+    (tree : Array Node) (numpoints bucket : Nat) (Q : Query) (hex : Q.exhaustive = true) (htol : Q.tol = 0)
+    (hinv : TreeInv tree bucket numpoints (fun i j => dist (pt i) (pt j))) :
+    ∃ res, search tree numpoints bucket (fun i => dist (pt i) q) Q = some res ∧
+      res.map (·.1) = bruteforce numpoints (fun i => dist (pt i) q) Q := by
+  have hm : MetricQ (fun i j => dist (pt i) (pt j)) (fun i => dist (pt i) q) := by
+    refine ⟨?_, ?_, ?_, ?_⟩
+    · intro p
+      have := htri (pt p) q (pt p); rw [h0, hsymm q (pt p)] at this; omega
+    · intro v p
+      have := htri (pt p) (pt v) q; rw [hsymm (pt p) (pt v)] at this; omega
+    · intro v p
+      have := htri (pt v) q (pt p); rw [hsymm q (pt p)] at this; omega
+    · intro v p
+      exact htri (pt v) (pt p) q
+  exact search_spec hm Q hex htol hinv
+
+/-- non-vacuity: the integers with `|x − y|` are a metric space, and a concrete stored tree (three points 0, 1, 3 on a
+    line, bucket size 2) satisfies `TreeInv` -/
+example : (∀ x : Int, ((x - x).natAbs : Int) = 0) ∧ (∀ x y : Int, ((x - y).natAbs : Int) = (y - x).natAbs) ∧
+    (∀ x y z : Int, ((x - z).natAbs : Int) ≤ (x - y).natAbs + (y - z).natAbs) :=
+  ⟨by intro x; omega, by intro x y; omega, by intro x y z; omega⟩
+def exPt (i : Nat) : Int := if i = 0 then 0 else if i = 1 then 1 else 3
+example : TreeInv #[.leaf [1, 2], .inner 0 0 0 (-1) 1 3 0] 2 3 (fun i j => ((exPt i - exPt j).natAbs : Int)) :=
+  checkInv_sound _ _ _ _ (by decide)
+example : search #[.leaf [1, 2], .inner 0 0 0 (-1) 1 3 0] 3 2 (fun i => ((exPt i - 2).natAbs : Int))
+    { k := 2, maxdist := 100, mindist := 0, exhaustive := true, tol := 0 } = some [(1, 1), (1, 2)] := by decide
+
 end GeoVerif.Props.C17
